@@ -197,6 +197,36 @@ func init() {
 		st.assume(And(Ge(r, IntLit(0)), Lt(r, n)))
 		return x.finish(st, fr, c, VScalar{r})
 	})
+	// gocoro scheduler (used by System.Tick)
+	reg("github.com/resonatehq/gocoro.Add", "gocoro.Add(scheduler, f): the scheduler either accepts the coroutine (non-nil promise, true) or is full (nil, false); recorded as sched_add", func(x *Exec, st *State, fr *Frame, c *callCtx) bool {
+		ok := x.sym.Fresh("sched.add.ok", SBool)
+		tup := c.ret.Type().(*types.Tuple)
+		x.callCounter++
+		pr := VIface{Nil: Not(ok), Typ: tup.At(0).Type(), Id: x.sym.Fresh("promise.id", SErr)}
+		res := []Value{pr, VScalar{ok}}
+		var as []TV
+		sig := c.common.Signature()
+		for i, a := range c.args {
+			if i < sig.Params().Len() {
+				as = append(as, TV{a, sig.Params().At(i).Type()})
+			}
+		}
+		as = append(as, TV{nil, tup.At(0).Type()}, TV{nil, tup.At(1).Type()})
+		st.rec = append(append([]recordedCall(nil), st.rec...), recordedCall{Name: "sched_add", Args: as, Results: res})
+		return x.finish(st, fr, c, VTuple{res})
+	})
+	for _, m := range []string{"RunUntilBlocked", "Shutdown", "Tick"} {
+		reg("(github.com/resonatehq/gocoro.Scheduler)."+m, "runs coroutines: their effects are the coroutines' own contracts; no effect on the caller's verified state", func(x *Exec, st *State, fr *Frame, c *callCtx) bool {
+			return x.finish(st, fr, c, nil)
+		})
+	}
+	reg("(github.com/resonatehq/gocoro.Scheduler).Size", "number of live coroutines: an arbitrary non-negative integer", func(x *Exec, st *State, fr *Frame, c *callCtx) bool {
+		n := x.sym.Fresh("sched.size", SInt)
+		st.assume(Ge(n, IntLit(0)))
+		return x.finish(st, fr, c, VScalar{n})
+	})
+	reg("(github.com/resonatehq/gocoro/pkg/promise.Promise).Completed", "arbitrary", noop)
+	reg("(github.com/resonatehq/gocoro/pkg/promise.Promise).Await", "arbitrary", noop)
 	// net/http client side (the http plugin): the network is arbitrary
 	twoResultMayFail := func(label string) Intrinsic {
 		return func(x *Exec, st *State, fr *Frame, c *callCtx) bool {
@@ -745,6 +775,40 @@ func init() {
 	})
 	reg("errors.As", "errors.As(err, target): false for a nil err; otherwise unknown, the target then holds an arbitrary value", func(x *Exec, st *State, fr *Frame, c *callCtx) bool {
 		a, _ := x.force(st, c.args[0]).(VIface)
+		// the error's dynamic type is the target's type: As succeeds and the target holds that very value
+		if tv, ok := x.force(st, c.args[1]).(VIface); ok && tv.Dyn != nil && a.Dyn != nil && a.Nil.IsFalse() {
+			if pt, ok := tv.Dyn.Underlying().(*types.Pointer); ok && types.Identical(pt.Elem(), a.Dyn) {
+				if p, ok := x.force(st, tv.Val).(VPtr); ok && p.Loc != nil {
+					x.store(st, p.Loc, a.Val)
+					return x.finish(st, fr, c, VScalar{TTrue})
+				}
+			}
+		}
+		// "assume-error-type <T>": every non-nil error reaching this function has dynamic type *T
+		if x.contract != nil && a.Dyn == nil {
+			if tv, ok := x.force(st, c.args[1]).(VIface); ok && tv.Dyn != nil {
+				if pt, ok := tv.Dyn.Underlying().(*types.Pointer); ok {
+					for _, d := range x.contract.Directives["assume-error-type"] {
+						if strings.HasSuffix(types.TypeString(pt.Elem(), nil), strings.TrimSpace(d)) {
+							if p, ok := x.force(st, tv.Val).(VPtr); ok && p.Loc != nil {
+								x.callCounter++
+								name := fmt.Sprintf("errors.as!%d", x.callCounter)
+								if a.Id.S != "" {
+									name = "errdyn." + a.Id.S
+								}
+								v := x.symbolic(st, pt.Elem(), name)
+								if vp, ok := v.(VPtr); ok {
+									st.assume(Implies(Not(a.Nil), Not(vp.Nil)))
+								}
+								x.store(st, p.Loc, v)
+								x.notes["ASSUMED: every non-nil error reaching this function has dynamic type *"+strings.TrimSpace(d)+" (errors.As succeeds)"] = true
+								return x.finish(st, fr, c, VScalar{Not(a.Nil)})
+							}
+						}
+					}
+				}
+			}
+		}
 		r := x.sym.Fresh("errors.as", SBool)
 		st.assume(Implies(a.Nil, Not(r)))
 		// the target (a pointer inside an interface) receives an unknown value
